@@ -247,6 +247,7 @@ def FStream.processSegment (s : FStream) (conv : Option FMP4Conv) (seg : Segment
     -- repair of F15 (when the source has it: regenerated flags of `Hls.Gen.Robust`): a segment in which no part-track has a
     -- sample is skipped, nothing is touched. Outside `WF` streams (every segment carries leading-track data); property C13.
     if (Hls.Gen.Robust.fmp4SkipsEmptySegments && (Hls.Gen.Robust.fmp4SkipsEmptyLeadingToo || !s.isLeading) &&
+        (!Hls.Gen.Robust.fmp4SkipNeedsFragment || !seg.parts.isEmpty) &&
         seg.parts.flatten.all (fun pt => pt.samples.isEmpty)) = true then .ok (s, conv, [])
     else .error .noLeadingData
   | some lpt =>
